@@ -91,7 +91,12 @@ sb_top(sbv_t v) { /* top non-zero digit, v != 0 */
 	return ((v <= 0xff) ? v : ((v <= 0xffff) ? (v >> 8) : ((v <= 0xffffff) ? (v >> 16) : (v >> 24))));
 }
 
-#define SB_PRE(b)	V_ASSERT(sb_is_norm(b), "spec precondition: bn operand normalised, within capacity, < 2^24")
+/* Precondition violations are accumulated and asserted once by the harness (SB_FINAL) - one property instead of
+ * three per stub call keeps symbolic execution and the solver's property loop small. */
+static int sb_bad;
+#define SB_REQ(c)	do { if (!(c)) sb_bad = 1; } while (0)
+#define SB_PRE(b)	SB_REQ(sb_is_norm(b))
+#define SB_FINAL()	V_ASSERT(0 == sb_bad, "stub preconditions held in every call: operands normalised, within capacity and width, no carry lost in bn_mult_digit(2|3), moduli are p / n / n-1")
 
 /* remainder step shared by all stubs = real  bn_div(bn, m, bn)  seen from the value side.
  * `count` is the capacity of bn when bn_div is entered.  The moduli that occur are the field prime, the group
@@ -116,7 +121,7 @@ sb_rem(sbv_t *v, size_t count, sbv_t mv) {
 	} else if ((CV_N - 1) == mv) {
 		(*v) %= (CV_N - 1);
 	} else {
-		V_ASSERT(0, "spec: modulus is the field prime, the group order or the group order minus one");
+		SB_REQ(0); /* modulus is not the field prime, the group order or the group order minus one */
 		(*v) %= mv;
 	}
 	return (0);
@@ -207,7 +212,7 @@ spec_bn_mod_mult(bn_p bn, bn_p n, bn_p m, bn_mod_rd_data_p md) {
 			return (EOVERFLOW);
 		a = sb_val(bn);
 		b = sb_val(n);
-		V_ASSERT(a <= SB_OPMAX && b <= SB_OPMAX, "spec precondition: multiplication operands within SB_OPBITS");
+		SB_REQ(a <= SB_OPMAX && b <= SB_OPMAX);
 		v = ((a & SB_OPMAX) * (b & SB_OPMAX));
 	}
 	error = sb_rem(&v, bn->count, sb_val(m));
@@ -237,18 +242,18 @@ spec_bn_mod_mult_digit(bn_p bn, bn_digit_t d, bn_p m, bn_mod_rd_data_p md) {
 			break;
 		case 2: /* bn_add(bn, bn, NULL) */
 			w = (v + v);
-			V_ASSERT(w == (w & sb_mask(bn)), "spec precondition: bn_mult_digit(bn,2) without lost carry");
+			SB_REQ(w == (w & sb_mask(bn)));
 			v = (w & sb_mask(bn));
 			break;
 		case 3: /* tmp = bn + bn; bn += tmp (tmp has the capacity of bn) */
 			w = (v + v + v);
-			V_ASSERT(w == (w & sb_mask(bn)), "spec precondition: bn_mult_digit(bn,3) without lost carry");
+			SB_REQ(w == (w & sb_mask(bn)));
 			v = (w & sb_mask(bn));
 			break;
 		default:
 			if (bn->digits >= bn->count)
 				return (EOVERFLOW);
-			V_ASSERT(v <= SB_OPMAX, "spec precondition: multiplication operands within SB_OPBITS");
+			SB_REQ(v <= SB_OPMAX);
 			v = ((v & SB_OPMAX) * d);
 			break;
 		}
@@ -319,7 +324,7 @@ spec_bn_mod_inv(bn_p bn, bn_p m, bn_mod_rd_data_p md) {
 		return (EINVAL);
 	if (((4 + ((bn->digits > m->digits) ? bn->digits : m->digits)) * BN_DIGIT_BITS) > BN_BIT_LEN)
 		return (EINVAL);
-	V_ASSERT(CV_P == mv || CV_N == mv, "spec: inverse only modulo the field prime or the group order");
+	SB_REQ(CV_P == mv || CV_N == mv);
 	if (CV_P == mv)
 		r = INVP[(v < CV_P) ? v : 0];
 	else if (CV_N == mv)
@@ -345,7 +350,7 @@ spec_bn_mod_reduce(bn_p bn, bn_p m, bn_mod_rd_data_p md) {
 	mv = sb_val(m);
 	if (v < mv)
 		return (0);
-	V_ASSERT(mv >= 2, "spec: modulus of bn_mod_reduce >= 2");
+	SB_REQ(mv >= 2);
 	error = sb_rem(&v, bn->count, (mv - 1));
 	if (0 != error)
 		return (error);
@@ -373,7 +378,7 @@ spec_bn_mod_sqrt(bn_p bn, bn_p m, bn_mod_rd_data_p md) {
 		return (EINVAL);
 	v = sb_val(bn);
 	mv = sb_val(m);
-	V_ASSERT(CV_P == mv, "spec: square root only modulo the field prime");
+	SB_REQ(CV_P == mv);
 	error = sb_rem(&v, bn->count, mv);
 	if (0 != error)
 		return (error);
@@ -409,7 +414,7 @@ spec_bn_import_be_hex(bn_p bn, const uint8_t *buf, size_t buf_size) {
 		return (EINVAL);
 	if ((bn->count * BN_DIGIT_SIZE) < (buf_size / 2))
 		return (EOVERFLOW);
-	V_ASSERT(buf_size <= 6, "spec: hex constants of at most 6 characters");
+	SB_REQ(buf_size <= 6);
 	for (size_t i = 0; i < 6; i ++) {
 		uint8_t c;
 		if (i >= buf_size)
